@@ -12,6 +12,20 @@ use std::hash::{BuildHasher, BuildHasherDefault, Hash, Hasher};
 thread_local! {
     static CMPS: Cell<u64> = const { Cell::new(0) };
     static FUSE: Cell<Option<u64>> = const { Cell::new(None) };
+    /// `Clone` of items / priorities counts as a user callback only inside the
+    /// `clone` / `clonefrom` operations (the harness itself clones queues for
+    /// the consuming operations, which the model does not count)
+    static CLONE_CB: Cell<bool> = const { Cell::new(false) };
+}
+
+pub fn clone_callbacks(on: bool) {
+    CLONE_CB.with(|c| c.set(on));
+}
+#[inline]
+fn clone_tick() {
+    if CLONE_CB.with(|c| c.get()) {
+        fuse_tick();
+    }
 }
 
 /// Payload of the panic raised by the fuse.
@@ -53,10 +67,16 @@ pub fn fuse_tick() {
 // ---------------------------------------------------------------------------
 
 /// Eq / Hash on `key` only: `payload` makes item overwrites visible.
-#[derive(Clone, Debug, Serialize, Deserialize)]
+#[derive(Debug, Serialize, Deserialize)]
 pub struct It {
     pub key: i64,
     pub payload: i64,
+}
+impl Clone for It {
+    fn clone(&self) -> It {
+        clone_tick();
+        It { key: self.key, payload: self.payload }
+    }
 }
 impl PartialEq for It {
     #[inline]
@@ -73,9 +93,15 @@ impl Hash for It {
 }
 
 /// Priority with a counting, fused `Ord`.  `PartialEq` is derived (not counted).
-#[derive(Clone, Debug, PartialEq, Eq, Serialize, Deserialize)]
+#[derive(Debug, PartialEq, Eq, Serialize, Deserialize)]
 #[serde(transparent)]
 pub struct Pr(pub i64);
+impl Clone for Pr {
+    fn clone(&self) -> Pr {
+        clone_tick();
+        Pr(self.0)
+    }
+}
 
 impl Ord for Pr {
     #[inline]
